@@ -205,6 +205,14 @@ func c17(c *Ctx) {
 				prof := adapter.BuildProfile(a, aux)
 				argObj = &prof
 			case "AddTask":
+				if f0 := a["From"]; r.Chance(0.4) && !f0.Zero && f0.Y >= 1 && f0.Y < 9999 {
+					// a task that lasts only a day or a few days (weekdays that cannot occur in it are enabled all the same)
+					f := a["From"]
+					t0 := time.Date(f.Y, time.Month(f.Mo), f.D, 12, 0, 0, 0, time.UTC).AddDate(0, 0, r.Pick(5))
+					if t0.Year() <= 9999 {
+						a["To"] = rm.DateVal(t0.Year(), int(t0.Month()), t0.Day())
+					}
+				}
 				task := adapter.BuildTask(a, aux)
 				argObj = &task
 			}
@@ -407,6 +415,9 @@ func c17(c *Ctx) {
 			case 2:
 				card.From, card.To = types.Date{}, types.Date{}
 			}
+			if r.Pick(5) == 0 {
+				card.Doors = map[uint8]uint8{} // a blank template: an empty map, not a nil one
+			}
 			cl := card.Clone()
 			c.Res.Eval(1)
 			encOf := func(d types.Date) string {
@@ -417,8 +428,18 @@ func c17(c *Ctx) {
 				c.Res.Violate("C17:clone:card-unequal", fmt.Sprintf("Card.Clone differs: %v (from %s, to %s) vs %v (from %s, to %s) (TZ=%s)", cl, encOf(cl.From), encOf(cl.To), card, encOf(card.From), encOf(card.To), time.Local), nil, caseNo)
 			}
 			before := adapter.PCard(&card).String()
+			if cl.Doors == nil {
+				cl.Doors = map[uint8]uint8{} // (a clone of a card without a door map may have none either)
+			}
+			nBefore, had0 := len(card.Doors), false
+			if card.Doors != nil {
+				_, had0 = card.Doors[0]
+			}
 			for k := uint8(0); k < 6; k++ {
 				cl.Doors[k] = 200 + k
+			}
+			if _, has0 := card.Doors[0]; len(card.Doors) != nBefore || (has0 && !had0) {
+				c.Res.Violate("C17:clone:card-shares-storage", fmt.Sprintf("writing into a Card clone's door map wrote into the original's (%d entries now)", len(card.Doors)), nil, caseNo)
 			}
 			if after := adapter.PCard(&card).String(); before != after {
 				c.Res.Violate("C17:clone:card-shares-storage", "mutating a Card clone's door map changed the original", nil, caseNo)
@@ -433,7 +454,8 @@ func c17(c *Ctx) {
 				}
 			}
 
-			dev := uhppote.Device{Name: "x", DeviceID: r.Serial(), Address: types.ControllerAddr{AddrPort: netip.MustParseAddrPort("10.1.2.3:60000")}, Doors: []string{"a", "b", "c"}[:r.Pick(4)], TimeZone: time.UTC, Protocol: "tcp"}
+			dev := uhppote.Device{Name: "x", DeviceID: r.Serial(), Address: types.ControllerAddr{AddrPort: netip.MustParseAddrPort("10.1.2.3:60000")}, Doors: []string{"a", "b", "c"}[:r.Pick(4)],
+				TimeZone: []*time.Location{time.UTC, nil, time.Local, time.FixedZone("Q", 3600)}[r.Pick(4)], Protocol: []string{"tcp", "udp", "any", "", "TCP", "xyz"}[r.Pick(6)]}
 			dcl := dev.Clone()
 			c.Res.Eval(1)
 			if dcl.Name != dev.Name || dcl.DeviceID != dev.DeviceID || dcl.Address != dev.Address || dcl.Protocol != dev.Protocol || dcl.TimeZone != dev.TimeZone || fmt.Sprint(dcl.Doors) != fmt.Sprint(dev.Doors) {
